@@ -457,6 +457,21 @@ pub fn counter_set_values(options: &BenchOptions<'_>) -> [Option<u64>; 4] {
     KnownCounterKind::ALL.map(|k| options.counters.get(k).map(|v| v as u64))
 }
 
+// ------------------------------------------------------------ entry lists
+
+/// A fresh, leaked list root (the constructor is crate-private).
+pub fn entry_list_root<T: 'static>() -> &'static crate::entry::EntryList<T> {
+    Box::leak(Box::new(crate::entry::EntryList::root()))
+}
+
+/// Names the addresses `base..base + len` as `id` in pointer events of the
+/// scenario running on this thread.
+pub fn ptr_register(base: usize, len: usize, id: u32) {
+    if let Some(c) = crate::verif::sched::ctx() {
+        c.sched.with_state(|st| st.ptr_register(base, len, id));
+    }
+}
+
 pub fn known_parallelism() -> usize {
     crate::util::known_parallelism().get()
 }
